@@ -7,8 +7,10 @@ import (
 	"compress/flate"
 	"encoding/base64"
 	"fmt"
+	"github.com/crewjam/saml"
 	"net/http"
 	"net/url"
+	"runtime/debug"
 	"strings"
 	"time"
 
@@ -29,14 +31,28 @@ func deflate(b []byte) []byte {
 type loRun struct {
 	cfg     Cfg
 	doc     *Node
-	docKind int    // 0 root, 1 bad, 2 no root
-	raw     []byte // XML bytes when docKind != 0
-	enc     string // post | redirect | request-post | request-redirect
-	payload string // overrides the encoded parameter (bad base64, bad deflate, bomb)
+	docKind int                   // 0 root, 1 bad, 2 no root
+	raw     []byte                // XML bytes when docKind != 0
+	enc     string                // post | redirect | request-post | request-redirect
+	payload string                // overrides the encoded parameter (bad base64, bad deflate, bomb)
+	spObj   *saml.ServiceProvider // a long-lived value to call instead of a fresh one built from cfg
+	again   string                // set by exec: how a second presentation of the same message differed
 }
 
 func (r *loRun) exec() (obs int, lo, hi int64, errText string) {
+	obs, lo, hi, errText = r.exec1()
+	// second presentation (same long-lived value, or another fresh one in the same process)
+	if obs2, _, _, err2 := r.exec1(); obs2 != obs {
+		r.again = fmt.Sprintf("first %d (%s), second %d (%s)", obs, errText, obs2, err2)
+	}
+	return
+}
+
+func (r *loRun) exec1() (obs int, lo, hi int64, errText string) {
 	spv := r.cfg.SP()
+	if r.spObj != nil {
+		spv = r.spObj
+	}
 	xml := r.raw
 	if r.docKind == 0 {
 		xml = []byte(r.doc.Render())
@@ -106,6 +122,10 @@ func runC18(c *Ctx) {
 		if obs == 2 {
 			cs.ImplSpecOK = Bptr(false)
 			cs.Note = "panic: " + errText
+		}
+		if r.again != "" {
+			cs.ImplSpecOK = Bptr(false)
+			cs.Note = "the same message presented a second time was decided differently: " + r.again
 		}
 		c.Count("encoding/" + r.enc)
 		c.Count("result/" + []string{"valid", "error", "panic"}[obs])
@@ -297,6 +317,83 @@ func runC18(c *Ctx) {
 		full := deflate([]byte(r.Render()))
 		add(&loRun{cfg: cfg, docKind: 1, enc: "redirect", payload: base64.StdEncoding.EncodeToString(full[:len(full)/2])}, map[string]string{"class": "framing", "framing": "truncated-deflate"})
 		bomb := deflate(bytes.Repeat([]byte{'A'}, 11*1024*1024))
-		add(&loRun{cfg: cfg, docKind: 1, enc: "redirect", payload: base64.StdEncoding.EncodeToString(bomb)}, map[string]string{"class": "framing", "framing": "bomb-11MiB"})
+		// no collection between the oversized message and the ones after it: whatever the library recycles
+		// (sync.Pool is emptied by the collector) is then really handed to the next message
+		gc := debug.SetGCPercent(-1)
+		defer debug.SetGCPercent(gc)
+		for i := 0; i < 4; i++ { // several: a budget that leaks from message to message fills up slowly
+			add(&loRun{cfg: cfg, docKind: 1, enc: []string{"redirect", "request-redirect"}[i%2], payload: base64.StdEncoding.EncodeToString(bomb)},
+				map[string]string{"class": "framing", "framing": "bomb-11MiB", "nth": fmt.Sprint(i)})
+		}
+		// a refused oversized message leaves no trace: the bound is per message
+		for _, enc := range encs {
+			rs := mkSpec(cfg, fresh)
+			r := buildResponse(rs)
+			SignInto(r, 0)
+			add(&loRun{cfg: cfg, doc: r, enc: enc}, map[string]string{"class": "after-bomb", "attack": "none"})
+		}
+	}
+	// one long-lived ServiceProvider value: the IdP's keys rotated in place, its metadata refreshed, the
+	// logout URL and the IdP entity ID edited in place, the value copied for another IdP
+	for ei, enc := range encs {
+		if !c.Thorough() && ei > 1 {
+			continue
+		}
+		cfg := defaultCfg()
+		cfg.Kds = []KD{{"signing", []int{0}}}
+		spObj := cfg.SP()
+		step := func(signer int, what string, mut func(rs *RespSpec)) {
+			rs := mkSpec(cfg, fresh)
+			if mut != nil {
+				mut(&rs)
+			}
+			r := buildResponse(rs)
+			SignInto(r, signer)
+			add(&loRun{cfg: cfg, doc: r, enc: enc, spObj: spObj}, map[string]string{"class": "long-lived-sp", "step": what, "signer": fmt.Sprint(signer)})
+		}
+		setKeys := func(certs ...int) {
+			cfg.Kds = []KD{{"signing", certs}}
+			kd := &spObj.IDPMetadata.IDPSSODescriptors[0].KeyDescriptors[0]
+			kd.KeyInfo.X509Data.X509Certificates = nil
+			for _, x := range certs {
+				kd.KeyInfo.X509Data.X509Certificates = append(kd.KeyInfo.X509Data.X509Certificates, saml.X509Certificate{Data: certB64(x)})
+			}
+		}
+		step(0, "initial-key", nil)
+		step(1, "other-key", nil)
+		setKeys(1)
+		step(0, "withdrawn-key", nil)
+		step(1, "new-key", nil)
+		setKeys(0, 1)
+		step(0, "both-keys", nil)
+		freshMD := *spObj.IDPMetadata
+		freshMD.IDPSSODescriptors = []saml.IDPSSODescriptor{{}}
+		freshMD.IDPSSODescriptors[0].KeyDescriptors = []saml.KeyDescriptor{{Use: "signing"}}
+		spObj.IDPMetadata = &freshMD
+		setKeys(0)
+		step(1, "after-refresh-withdrawn-key", nil)
+		step(0, "after-refresh-key", nil)
+		oldSlo := cfg.SloURL
+		cfg.SloURL = "https://sp.example.com/tenant-b/saml/slo"
+		spObj.SloURL = mustURL(cfg.SloURL)
+		step(0, "slo-url-edited-new", nil)
+		step(0, "slo-url-edited-old", func(rs *RespSpec) { rs.Dest = sp(oldSlo) })
+		oldIdp := cfg.IdpEntity
+		cfg.IdpEntity = "https://idp2.example.com/metadata"
+		spObj.IDPMetadata.EntityID = cfg.IdpEntity
+		step(0, "idp-entity-edited-new", nil)
+		step(0, "idp-entity-edited-old", func(rs *RespSpec) { rs.Issuer = sp(oldIdp) })
+		// copy by value, pointed at another IdP
+		q := *spObj
+		orig, origCfg := spObj, cfg
+		cfg.Kds = []KD{{"signing", []int{1}}}
+		cfg.IdpEntity = "https://idp-b.example.com/metadata"
+		q.IDPMetadata = cfg.SP().IDPMetadata
+		spObj = &q
+		step(0, "copy-other-idp-signed-by-first", nil)
+		step(1, "copy-other-idp-signed-by-its-idp", nil)
+		spObj, cfg = orig, origCfg
+		step(0, "original-after-copy", nil)
+		step(1, "original-after-copy-other-key", nil)
 	}
 }
